@@ -37,6 +37,14 @@ theorem C10_body_flat (n len i : Nat) :
     runViews true SeqBody.sliceFromChunksMut ⟨n, len, i⟩ = .views [⟨0, len * n, true⟩] :=
   sliceFromChunks_body n len i
 
+/-- **C02** `as_slice` / `as_mut_slice` — what every other borrowed view (`Deref`, `Borrow`, `AsRef`, `&`-iteration, indexing)
+    delegates to — on the interpreted bodies: the view starts at the array's address, has exactly `N` elements, is made from
+    the receiver reference itself and is writable only for `as_mut_slice` -/
+theorem C02_body_as_slice (n k i : Nat) :
+    runViews false SeqBody.asSlice ⟨n, k, i⟩ = .views [⟨0, n, false⟩] ∧
+    runViews true SeqBody.asMutSlice ⟨n, k, i⟩ = .views [⟨0, n, true⟩] :=
+  asSlice_body n k i
+
 /-- **C02** the checked slice → array-reference conversions succeed iff `len = N` (panic / `LengthError` / failed
     assertion otherwise) and then alias the slice exactly: same address, `N` elements, writable only for the `&mut` form -/
 theorem C02_body_reinterpret_exact (n len i : Nat) :
@@ -68,8 +76,14 @@ example : runViews false [.ptrArg 0 false .k, .viewAt 0 0 (.lit 0) (.mul (.div .
 example : runViews false [.errIf (.ne (.mul .k (.lit 0)) (.mul .n (.lit 0))), .ptrArg 0 false .k, .viewAt 0 0 (.lit 0) .n false, .retViews [0]]
     ⟨3, 2, 0⟩ = .ub := by decide
 
+-- `as_mut_slice` made from `self as *const Self` (a pointer that may not be written through)
+example : runViews true [.ptrSelf 0 false, .viewAt 0 0 (.lit 0) .n true, .retViews [0]] ⟨4, 0, 0⟩ = .ub := by decide
+-- a view one element longer than the array
+example : runViews false [.ptrSelf 0 false, .viewAt 0 0 (.lit 0) (.add .n (.lit 1)) false, .retViews [0]] ⟨4, 0, 0⟩ = .ub := by decide
+
 end GA.Props.BodyViews
 
+#print axioms GA.Props.BodyViews.C02_body_as_slice
 #print axioms GA.Props.BodyViews.C10_body_chunks_partition
 #print axioms GA.Props.BodyViews.C10_body_chunks_zero
 #print axioms GA.Props.BodyViews.C10_body_flat
